@@ -257,6 +257,8 @@ pub fn get_sub_entity_query(
     t: usize,
     is_unique_value: bool,
 ) -> String {
+    //used as a table alias: quoted, a field name can be a keyword of the SQL language
+    let field_name = &format!("\"{}\"", field_name);
     let mut q = String::new();
     tab(&mut q, t);
     q.push_str("SELECT \n");
@@ -315,6 +317,8 @@ pub fn get_sub_system_entity_query(
     t: usize,
     is_unique_value: bool,
 ) -> String {
+    //used as a table alias: quoted, a field name can be a keyword of the SQL language
+    let field_name = &format!("\"{}\"", field_name);
     let mut q = String::new();
     tab(&mut q, t);
     q.push_str("SELECT \n");
